@@ -22,7 +22,8 @@ BASE_CFG = {
     "final_order": 0.3,
     "block_table_prob": 0.2,
     # polars 1.44 has no Expr.cumsum/cummax/...: ordered windows mostly raise; keep them, but fewer
-    "ops": {"ordered_window": 1},
+    "ops": {"ordered_window": 1, "natural_join": 7},
+    "diffname_prob": 0.4,
 }
 
 
